@@ -78,11 +78,8 @@ def run(ck):
                               good if not bad_[key] else '; '.join(bad_[key][:3]), fi, fi.node)
                     if any(bad_.values()):
                         continue        # the run found the violation; the shape rules would only repeat it
-                    try:
-                        _emitter_shape(ck, prog, fid, fi, R1, R2)
-                    except AnalysisError as err_:
-                        ck.note(f"shape rules for {fid} not applicable to this layout ({err_.reason}); "
-                                "decided by the abstract run")
+                    from rules.shared import shapes_backed_by_run
+                    shapes_backed_by_run(ck, lambda: _emitter_shape(ck, prog, fid, fi, R1, R2), 'SBlock.set_output')
                     continue
                 ck.note(f"abstract run of set_output not applicable: {run_['why']}")
             _emitter_shape(ck, prog, fid, fi, R1, R2)
@@ -104,7 +101,8 @@ def run(ck):
 
     with ck.section('R02.4'):
         # ------------------------------------------------------------------ R02.4
-        _event_send_language(ck, R4)
+        from rules.shared import event_send_rules
+        event_send_rules(ck, R4, ('source', 'pipeline', 'veto', 'delivery'), lambda: _event_send_language(ck, R4))
 
     with ck.section('R02.5'):
         # ------------------------------------------------------------------ R02.5
